@@ -210,6 +210,7 @@ class SoCBusHandler(LiteXModule):
                     colorer(overlap[1])))
                 self.logger.error(str(self.io_regions[overlap[0]]))
                 self.logger.error(str(self.io_regions[overlap[1]]))
+                del self.io_regions[name] # Refused: don't leave it registered.
                 raise SoCError()
             self.logger.info("{} Region {} at {}.".format(
                 colorer(name,    color="underline"),
@@ -251,6 +252,7 @@ class SoCBusHandler(LiteXModule):
                         colorer(overlap[1])))
                     self.logger.error(str(self.regions[overlap[0]]))
                     self.logger.error(str(self.regions[overlap[1]]))
+                    del self.regions[name] # Refused: don't leave it registered.
                     raise SoCError()
             self.logger.info("{} Region {} at {}.".format(
                 colorer(name, color="underline"),
